@@ -67,8 +67,8 @@ Proof.
   destruct (forallb is_digit _); [|reflexivity]. destruct (undec _); reflexivity.
 Qed.
 
-Ltac norm_send :=
-  repeat first [rewrite send_error_eq | rewrite send_rejection_eq]; repeat rewrite send_response_eq.
+Ltac norm_err := repeat first [rewrite send_error_eq | rewrite send_rejection_eq].
+Ltac norm_send := norm_err; repeat rewrite send_response_eq.
 
 (* cancel_timer only touches the timer *)
 Lemma cancel_timer_eq s : cancel_timer s = set_timer s (match timer s with TArmed => TCancelled | t => t end).
@@ -247,7 +247,7 @@ Proof.
     + rewrite cancel_timer_eq. cbn.
       destruct (pending s) eqn:P; [reflexivity|].
       destruct (i_pend s I) as [_ H]; [rewrite P; discriminate|congruence].
-    + rewrite cancel_timer_eq. cbn. assumption.
+    + rewrite cancel_timer_eq. cbn. reflexivity.
     + cbn [timer set_content]. apply cancel_timer_not_armed.
   - pose proof (Inv_nopend s I L) as P. pose proof (i_line s I L) as A.
     destruct (break_crlf (buf s1)) as [[line rest]|].
@@ -276,14 +276,11 @@ Qed.
 Lemma Ready_after_take s k id : Inv s -> pending s = [(id, k)] ->
   Ready (set_pending s []) /\ (k = TTitanMw -> titan s <> None /\ has_upload = true).
 Proof.
-  intros I P. pose proof I as [? ? ? ? ? ? ?]. split.
-  - constructor; cbn; auto.
-    + constructor; cbn; auto; try lia; try tauto.
-      * intros H. destruct (i_armed0 H) as [H1 _]. congruence.
-      * intros [H|[]]. apply i_titan0; auto.
-    + apply i_pend0. rewrite P; discriminate.
-    + apply i_pend0. rewrite P; discriminate.
-    + intro H. destruct (i_armed0 H) as [H1 _]. congruence.
+  intros I P. pose proof I as [? ? ? ? ? ? ?].
+  assert (LA : line_rcvd s = true /\ await_titan s = false) by (apply i_pend0; rewrite P; discriminate).
+  assert (T : timer s <> TArmed) by (intro H; destruct (i_armed0 H) as [H1 _]; congruence).
+  split.
+  - constructor; cbn; try tauto. constructor; cbn; auto; try lia; try tauto.
   - intros ->. apply i_titan0. right. rewrite P. cbn. auto.
 Qed.
 
@@ -293,7 +290,7 @@ Proof.
   destruct (take_task_small id (pending s) (i_len s I)) as [->|[k [P ->]]]; [exact I|].
   destruct (Ready_after_take s k id I P) as [R K]. set (s1 := set_pending s []) in *.
   assert (S : forall r, Inv (fst (send_response s1 r))) by (intro; apply Inv_send, R).
-  destruct k; destruct o as [r|m|[|] text|]; norm_send; try apply S;
+  destruct k; destruct o as [r|m|[|] text|]; norm_err; try apply S;
     try (apply Inv_route; assumption).
   all: try (apply Inv_start_upload; assumption).
 Qed.
